@@ -197,7 +197,7 @@ def handleWorld (st : St) (op : String) (j : Json) : Option (E (St × Json)) :=
     let kind ← (← field j "kind").getStr?
     let m := n.info.nmeta
     let m' ← match kind with
-      | "set" => pure (metaSet m (← (← field j "k").getStr?) (← (← field j "v").getStr?))
+      | "set" => pure (metaSetV m (← (← field j "k").getStr?) (← (← field j "v").getStr?))
       | "clear" => pure (metaClear m (← optStr (fieldD j "k" .null)))
       | "update" => do
         let vals ← metaOfJson (← field j "vals")
